@@ -232,7 +232,10 @@ impl Property for C10 {
                 match guard(std::panic::AssertUnwindSafe(|| gp.earcut_triangles())) {
                     Ok(ts) => {
                         if let Some(rings) = tri_rings("earcut", &ts, obs) {
-                            check_tiling("earcut", &c.g, &rings, obs, &ctx);
+                            // input class for the known-findings matcher: three or more holes (the ear-cut dependency bridges
+                            // holes to the shell one after the other and can then cut across an earlier bridge)
+                            let name = if p.holes.len() >= 3 { "earcut[holes>=3]" } else { "earcut" };
+                            check_tiling(name, &c.g, &rings, obs, &ctx);
                         }
                         stitch_check("earcut", &ts, want_area, obs);
                         // the iterator and raw forms describe the same triangles
